@@ -5,6 +5,9 @@ package main
 import (
 	"context"
 	"encoding/json"
+
+	"github.com/sharedcode/sop/cache"
+	"verif.local/mc/vhook"
 	"fmt"
 	"os"
 	"sort"
@@ -22,6 +25,13 @@ type scenario struct {
 	Name   string
 	Stores []txn.StoreSpec
 	Progs  []txn.Prog
+	// Seq, when set, gives each thread a sequence of programs (run one after the other); Progs is then
+	// the flattened list (filled by mkSeq) and recs follow the same flattened order.
+	Seq [][]txn.Prog
+	// MaxTime is the transactions' commit budget and lock TTL (0 = default 15 min).
+	MaxTime time.Duration
+	// Env adds an environment thread performing these cache/clock events, one per step.
+	Env []string
 	// Props this scenario serves.
 	Props []string
 	// MaxTime overrides the transactions' commit budget (0 = default 15 min).
@@ -34,6 +44,14 @@ type execEnv struct {
 	recs  []*txn.Record
 	final txn.Dump
 	cold  txn.Dump
+}
+
+func mkSeq(sc *scenario) *scenario {
+	sc.Progs = nil
+	for _, seq := range sc.Seq {
+		sc.Progs = append(sc.Progs, seq...)
+	}
+	return sc
 }
 
 func names(sc *scenario) []string {
@@ -65,14 +83,48 @@ func mkScenario(sc *scenario) *sched.Scenario {
 		MaxVirtual: 2 * time.Hour,
 		Setup: func(x *sched.Execution) []sched.ThreadSpec {
 			sopenv.Restore(2)
+			sopenv.MaxTime = sc.MaxTime
 			env := &execEnv{recs: make([]*txn.Record, len(sc.Progs))}
 			x.Env = env
 			var specs []sched.ThreadSpec
-			for i, p := range sc.Progs {
-				i, p := i, p
-				specs = append(specs, sched.ThreadSpec{Name: p.Name, Fn: func(t *sched.T) {
-					ctx := context.WithValue(t.Ctx(), txn.StampKey{}, func() int { return t.X().TraceLen() })
-					env.recs[i] = txn.Run(ctx, p, nil)
+			if len(sc.Seq) > 0 {
+				idx := 0
+				for _, seq := range sc.Seq {
+					seq := seq
+					base := idx
+					idx += len(seq)
+					specs = append(specs, sched.ThreadSpec{Name: seq[0].Name, Fn: func(t *sched.T) {
+						ctx := context.WithValue(t.Ctx(), txn.StampKey{}, func() int { return t.X().TraceLen() })
+						for k, p := range seq {
+							env.recs[base+k] = txn.Run(ctx, p, nil)
+						}
+					}})
+				}
+			} else {
+				for i, p := range sc.Progs {
+					i, p := i, p
+					specs = append(specs, sched.ThreadSpec{Name: p.Name, Fn: func(t *sched.T) {
+						ctx := context.WithValue(t.Ctx(), txn.StampKey{}, func() int { return t.X().TraceLen() })
+						env.recs[i] = txn.Run(ctx, p, nil)
+					}})
+				}
+			}
+			if len(sc.Env) > 0 {
+				specs = append(specs, sched.ThreadSpec{Name: "ENV", Fn: func(t *sched.T) {
+					for _, e := range sc.Env {
+						vhook.Point("l2", "ENV "+e) // the event happens when this thread is next scheduled
+						switch e {
+						case "clear-l2":
+							sopenv.L2.Inner().Clear(sopenv.Bg)
+						case "clear-l1":
+							cache.VerifEvictL1()
+						case "advance-20m":
+							t.X().Advance(20 * time.Minute)
+						case "advance-2h":
+							t.X().Advance(2 * time.Hour)
+						}
+						t.Note("ENVDONE " + e)
+					}
 				}})
 			}
 			return specs
@@ -430,6 +482,8 @@ func checkExecution(run *ev.Run, prop string, sc *scenario, x *sched.Execution, 
 				viol("count-mismatch", fmt.Sprintf("store %s count=%d items=%d", s.Name, env.cold.Counts[s.Name], len(env.cold.Stores[s.Name])))
 			}
 		}
+	case "C20":
+		checkC20(viol, sc, env, initial, unique)
 	case "C03":
 		checkC03(viol, sc, x, env, initial, unique)
 	}
@@ -534,6 +588,34 @@ func rootCause(trace []string) string {
 				if es[j].tid != e.tid {
 					return "commit-install-window-interleaving"
 				}
+			}
+		}
+	}
+	// stall-beyond-lock-ttl: the environment advanced the clock by more than the lock TTL while a committer
+	// was between taking its node locks and removing its priority log (a stalled process).
+	for i, e := range es {
+		if e.class != "note" || !strings.HasPrefix(e.label, "ENVDONE advance") {
+			continue
+		}
+		for tid := range last {
+			if tid == e.tid {
+				continue
+			}
+			locked := false
+			for j := 0; j < len(es) && es[j].exec <= i; j++ {
+				if es[j].tid != tid {
+					continue
+				}
+				if es[j].class == "l2" && strings.HasPrefix(es[j].label, "Lock lock:") {
+					locked = true
+				}
+				if es[j].class == "file" && strings.HasPrefix(es[j].label, "Remove ") && strings.HasSuffix(es[j].label, ".plg") {
+					locked = false
+				}
+			}
+			if locked {
+				_ = i
+				return "stall-beyond-lock-ttl"
 			}
 		}
 	}
@@ -862,5 +944,58 @@ func replay(prop, path string, scs []*scenario) {
 	fmt.Printf("replayed 5 times: %d/5 reproduce a violation (sig recorded: %s)\n", fails, f.Sig)
 	if fails > 0 {
 		os.Exit(1)
+	}
+}
+
+// checkC20: a read in a transaction that STARTED after a Commit returned nil must return that commit's
+// value (or the value of a commit that completed later); never an older one.
+func checkC20(viol func(kind, detail string), sc *scenario, env *execEnv, initial txn.Model, unique map[string]bool) {
+	var ws []*txn.Record
+	for _, r := range env.recs {
+		if r != nil && r.Prog.Mode == sop.ForWriting && r.Committed {
+			ws = append(ws, r)
+		}
+	}
+	sort.Slice(ws, func(i, j int) bool { return ws[i].EndAt < ws[j].EndAt })
+	for _, r := range env.recs {
+		if r == nil || r.Prog.Mode == sop.ForWriting {
+			continue
+		}
+		must := 0
+		for _, w := range ws {
+			if w.EndAt <= r.BeginAt {
+				must++
+			}
+		}
+		for _, res := range r.Results {
+			if res.Err != "" {
+				// a read that fails because a cache served a superseded handle is also not "the latest committed state"
+				if strings.Contains(res.Err, "no such file") && must == len(ws) {
+					viol("read-fails-on-superseded-handle", fmt.Sprintf("reader %s began at %d after every commit had returned, yet %s failed: %s", r.Prog.Name, r.BeginAt, res.Op, res.Err))
+				}
+				continue
+			}
+			if res.Op.Kind != "get" && res.Op.Kind != "getnolock" && res.Op.Kind != "count" && res.Op.Kind != "scan" {
+				continue
+			}
+			ok := false
+			var accept []string
+			for n := must; n <= len(ws); n++ {
+				m := initial.Clone()
+				for _, w := range ws[:n] {
+					for _, wr := range w.Results {
+						m.Apply(wr.Op, unique[wr.Op.Store])
+					}
+				}
+				exp := m.Apply(res.Op, unique[res.Op.Store])
+				accept = append(accept, fmt.Sprintf("found=%v val=%q count=%d scan=%v", exp.Found, exp.Val, exp.Count, exp.Scan))
+				if txn.SameResult(res, exp) {
+					ok = true
+				}
+			}
+			if !ok {
+				viol("stale-read", fmt.Sprintf("reader %s began at logical time %d, after %d commit(s) had returned; %s returned found=%v val=%q count=%d scan=%v; acceptable (latest committed state or later): %v", r.Prog.Name, r.BeginAt, must, res.Op, res.Found, res.Val, res.Count, res.Scan, accept))
+			}
+		}
 	}
 }
